@@ -434,6 +434,9 @@ def _emit_fn(g, source, a, blocks, vacuity, probe_insert=None):
             raise ExtractError(f"anchor lost: exactly one async block expected in {f.name}")
         body = body.replace("vasync_block()", a["async_block_call"])
         rules.append(("R11b", f"the async block is replaced by a call of its R11c fn: `{a['async_block_call']}`"))
+    if a.get("trace_calls"):
+        from rsx import trace_calls as _tc
+        body = _tc(body, a["trace_calls"].split(","), rules)
     if a.get("trace_awaits"):
         from rsx import trace_awaits as _ta
         body = _ta(body, rules)
@@ -513,7 +516,8 @@ def _emit_fn(g, source, a, blocks, vacuity, probe_insert=None):
             outp.append(t.text)
             k += 1
         if not hit:
-            raise ExtractError(f"anchor lost: no `|p| EXPR` closure to annotate in {f.name}")
+            # nothing to annotate (the closure is gone): fine -- any closure left un-annotated is counted below
+            rules.append(("R18", "no `|p| EXPR` closure found to annotate"))
         body = "".join(outp)
     if a.get("unproject"):
         # R4d: pin_project alias elimination.  `let [mut] this = self[.as_mut()].project();` only builds a struct of
@@ -609,6 +613,14 @@ def _emit_fn(g, source, a, blocks, vacuity, probe_insert=None):
             brace = lpos[n - 1][1]
             at = brace + 1 if "loop_start" in ia else _mc2(ltoks, brace)
             body = "".join(t.text for t in ltoks[:at]) + txt + "".join(t.text for t in ltoks[at:])
+            continue
+        if "fn_end" in ia:
+            # at the very end of the function body (only for bodies whose last statement ends with `;` or `}`)
+            last = body.rstrip().rfind("}")
+            prev = body[:last].rstrip()
+            if not prev.endswith((";", "}", "{")):
+                raise ExtractError(f"anchor lost: fn_end of {f.name}: the body ends with a value expression")
+            body = body[:last] + txt + body[last:]
             continue
         try:
             if "after" in ia:
